@@ -34,7 +34,10 @@ RULE = ("random cases: one of the 15 operations x backend (NumPy array / xarray 
         "without coordinates) x 1-6 integer arrays of rank 0-3 and extents 1-3 (values -4..4) x axis/dim argument (absent, every "
         "position, negative, as name, out of range) x int / list / ndarray indices (incl. negative and out of range); for the variadic "
         "reductions and concat additionally EVERY cut of the k arguments into >= 2 consecutive batches (2^(k-1)-1 cuts). "
-        "About a quarter of the cases (every one of pow, multiply, add, subtract, sum, prod, max, min, stack, concat, take on every "
+        "Every run also holds the axis sweep: every operation with an axis / dim argument (7 reductions, take, stack, concat) on every "
+        "backend with EVERY axis -ndim..ndim-1 (stack -(ndim+1)..ndim) on a 2-D and a 3-D array of pairwise different extents, for "
+        "xarray also every dimension by name; take with non-negative scalar, negative scalar, list and ndarray indices. "
+        "A fifth of the cases (every one of pow, multiply, add, subtract, sum, prod, max, min, stack, concat, take on every "
         "backend, incl. scalar-operand, nested and multi-argument forms and all batch cuts) carry int64 magnitudes around 2^53, "
         "around powers of two and near the largest value for which the exact result (and every partial result) still fits in "
         "int64; integer results are compared exactly as Python ints (never through float64) and the integer-ness of the result "
@@ -687,6 +690,56 @@ def gen_big_case(rng, op=None, backend=None):
     return case
 
 
+# --- every axis / dim value on arrays whose extents are all distinct ------------------------------------------------
+# A wrong axis shows only if the extents differ (shape) or the data is not symmetric; a negative axis other than -ndim
+# shows only from rank 2 on.  Every run holds, for every operation that takes an axis / dim argument, on every backend,
+# every axis from -ndim to ndim-1 (stack: -(ndim+1)..ndim) on a 2-D and a 3-D array with pairwise different extents;
+# for xarray objects also every dimension given by NAME; take with a non-negative scalar, a negative scalar, a list and
+# an ndarray of indices (negative ones among them).
+
+def axis_sweep(rng):
+    out = []
+
+    def add(case, lo=-4, hi=4):
+        be = case["backend"]
+        case["coords"] = be != "np" and rng.random() < 0.4
+        case["sweep"] = True
+        if be == "ds":
+            case["args2"] = [_map_vals(a, lambda v: rng.randint(lo, hi)) for a in case["args"]]
+        out.append(case)
+
+    for be in ("np", "da", "ds"):
+        xr_ = be != "np"
+        for nd in (2, 3):
+            sh = rng.sample([2, 3, 4], nd)
+            # (axis value, style): positions -nd..nd-1, and for xarray every dimension by name
+            forms = [(ax, "axis") for ax in range(-nd, nd)] + ([(ax, "dim") for ax in range(nd)] if xr_ else [])
+            for op in REDUCTIONS:
+                lo, hi = (-2, 2) if op == "prod" else (-4, 4)
+                for ax, style in forms:
+                    if be == "ds" and style == "axis":
+                        continue                      # xarray refuses `axis=` on a Dataset: only `dim=` there
+                    add({"op": op, "backend": be, "axis": ax, "style": style, "args": [_rand(rng, sh, lo, hi)]}, lo, hi)
+            for ax, style in forms:
+                n = sh[ax]
+                neg_or_not = lambda: rng.randint(-n, n - 1)
+                for index, itype in ((rng.randint(0, n - 1), "int"), (rng.randint(-n, -1), "int"),
+                                     ([neg_or_not() for _ in range(rng.randint(2, 3))] + [rng.randint(-n, -1)], "list"),
+                                     ([rng.randint(-n, -1)] + [neg_or_not() for _ in range(rng.randint(0, 2))], "ndarray")):
+                    add({"op": "take", "backend": be, "axis": ax, "style": style, "index": index, "index_type": itype,
+                         "args": [_rand(rng, sh, -4, 4)]})
+            for ax in range(-(nd + 1), nd + 1):
+                add({"op": "stack", "backend": be, "axis": ax, "args": [_rand(rng, sh, -4, 4) for _ in range(rng.randint(2, 3))]})
+            for ax in range(-nd, nd):
+                args = []
+                for _ in range(rng.randint(2, 3)):
+                    s2 = list(sh)
+                    s2[ax] = rng.randint(1, 3)
+                    args.append(_rand(rng, s2, -4, 4))
+                add({"op": "concat", "backend": be, "axis": ax, "args": args})
+    return out
+
+
 def nontrivial(case):
     vals = set()
 
@@ -855,7 +908,10 @@ def _cases(ctx, n):
         for be in ("np", "da", "ds"):
             for _ in range(ctx.budget(4, 30)):
                 cases.append(gen_big_case(ctx.rng, op, be))
-    while len(cases) < n:
+    for _ in range(ctx.budget(1, 4)):
+        cases += axis_sweep(ctx.rng)
+    # the random mix (the sweeps above come on top of it)
+    for _ in range(max(0, n - 90)):
         cases.append(gen_big_case(ctx.rng) if ctx.rng.random() < 0.15 else gen_case(ctx.rng))
     return cases
 
@@ -880,6 +936,10 @@ def _evaluate(ctx, cases, with_model):
             ctx.count("with_coords")
         if base["op"] == "take":
             ctx.count("take_index:" + base["index_type"])
+        if base.get("sweep"):
+            ctx.count("axis_sweep")
+            ctx.count("axis_sweep:%s:rank%d:%s" % (base["backend"], len(_shape_of(a0)), "by-name" if base.get("style") == "dim"
+                                                   else "negative" if base["axis"] < 0 else "non-negative"))
         if base.get("big"):
             ctx.count("big_int64")
             ctx.count("big_int64:" + base["op"])
@@ -983,6 +1043,8 @@ def search(ctx, why):
         for be in ("np", "da", "ds"):
             for _ in range(10):
                 cases.append(gen_big_case(ctx.rng, op, be))
+    for _ in range(3):
+        cases += axis_sweep(ctx.rng)
     for _ in range(ctx.budget(400, 4000)):
         cases.append(gen_big_case(ctx.rng) if ctx.rng.random() < 0.2 else gen_case(ctx.rng))
     ctx.notes.append("violation search: %d extra cases (marked now: %s)" % (len(cases), marked))
